@@ -129,6 +129,47 @@ func genStatements(c *worker.Ctx, p *lintProgram, scope string, users []string, 
 	return b.String()
 }
 
+// declaresEverything declares every name the generated programs may refer to
+// without declaring it.
+const declaresEverything = `
+backend F_b0 { .host = "x0.example.com"; .port = "443"; }
+backend F_b1 { .host = "x1.example.com"; .port = "443"; }
+backend F_b2 { .host = "x2.example.com"; .port = "443"; }
+backend nosuch { .host = "n.example.com"; }
+director d_x random { { .backend = F_b0; .weight = 1; } }
+acl acl_0 { "10.0.0.0"/8; }
+acl acl_1 { "10.1.0.0"/16; }
+acl acl_2 { "10.2.0.0"/16; }
+table tbl_0 { "k": "v" }
+table tbl_1 { "k": "v" }
+table tbl_2 { "k": "v" }
+ratecounter rc_0 {}
+ratecounter rc_1 {}
+ratecounter nosuch_rc {}
+penaltybox pb_0 {}
+penaltybox pb_1 {}
+sub u0 { set req.http.X-A = "o"; }
+sub u1 { set req.http.X-A = "o"; }
+sub u2 { set req.http.X-A = "o"; }
+sub u3 { set req.http.X-A = "o"; }
+sub u4 { set req.http.X-A = "o"; }
+sub u5 { set req.http.X-A = "o"; }
+sub fn_0(STRING var.p) BOOL { return true; }
+sub fn_1(STRING var.p) BOOL { return true; }
+sub fn_2(STRING var.p) BOOL { return true; }
+sub helper_m0 { set req.http.X-A = "o"; }
+sub helper_m1 { set req.http.X-A = "o"; }
+sub vcl_recv {
+  #FASTLY RECV
+  declare local var.undeclared STRING;
+  set req.backend = F_b0;
+  set req.http.X-A = backend.F_b0.healthy backend.nosuch.healthy director.d_x.healthy ratecounter.rc_0.bucket.10s;
+  if (req.http.X-A ~ "(a)(b)(c)(d)(e)(f)(g)(h)(i)(j)(k)") { set req.http.X-A = re.group.11; }
+  call u0; call u1; call u2; call u3; call u4; call u5; call helper_m0; call helper_m1;
+  return(lookup);
+}
+`
+
 var oddVars = []string{
 	"ratecounter.rc_0.bucket.10s", "ratecounter.rc_0.rate.60s", "ratecounter.rc_0.foo.10s", "ratecounter.rc_0.bucket.99s", "ratecounter.rc_0.bucket", "ratecounter.rc_0", "ratecounter.nosuch.bucket.10s", "ratecounter.rc_0.bucket.10s.x",
 	"backend.F_b0.healthy", "backend.F_b0.connections_open", "backend.nosuch.healthy", "backend.F_b0.nosuch", "backend.F_b0", "director.F_b0.healthy", "director.nosuch.healthy",
@@ -561,6 +602,25 @@ func runC11(c *worker.Ctx) {
 			res.Violate("C11/D-deterministic", "C11/order-dependent:"+ruleOf(d), fmt.Sprintf("diagnostics differ between two runs (native map order vs sorted):\n    %s\nprogram:\n%s", d, src))
 			return
 		}
+	}
+	// H: history inside one process. Another, unrelated program is linted in
+	// between — one that declares everything this program may refer to — and
+	// this program is linted again: what it reports must not depend on what the
+	// process linted before.
+	if c.T.Bool(1, 3) {
+		other := lintOnce(declaresEverything, nil, mk(0))
+		if other.panicV != nil || other.spin {
+			panic(fmt.Sprintf("lintsim: the intervening program does not lint: %v", other.panicV))
+		}
+		again := lintOnce(src, p.modules, mk(0))
+		if report(again, "after another program was linted in the same process") {
+			return
+		}
+		if d := multisetDiff(again.diags, base.diags); d != "" {
+			res.Violate("C11/D-deterministic", "C11/history-dependent:"+ruleOf(d), fmt.Sprintf("the same program reports different diagnostics after an unrelated program (which declares the names this one refers to) was linted in the same process:\n    %s\nprogram:\n%s", d, src))
+			return
+		}
+		res.Probe("relinted_after_another_program")
 	}
 	// P: permuting subroutine declarations changes only locations
 	var subIdx []int
